@@ -49,6 +49,7 @@ MODELS = {
     "pyplug": os.path.join(ASSETS, "pyplug.py"), "allpd": os.path.join(ASSETS, "allpd.py"),
 }
 PY_MODELS = {"broad_peak", "_spherepy", "pyplug"}
+GENERIC = set()       # builtin models added to the pool in the thorough tier
 FQ_MODELS = {"sphere", "cylinder", "core_multi_shell", "pyplug", "allpd", "_spherepy"}
 
 PARS = {
@@ -136,6 +137,13 @@ SV_SET = {
     "pyplug": [("radius", 22.0), ("thick", 3.0)],
     "allpd": [("r", 12.0), ("r", -10.0)],
 }
+# dispersity settings written straight through setParam("par.width", ...), the
+# way the SasView GUI does it (no set_dispersion call in between)
+for _m, _p in (("sphere", "radius"), ("cylinder", "radius"), ("cylinder", "length"),
+               ("core_multi_shell", "radius"), ("sphere@hardsphere", "radius"),
+               ("pyplug", "radius"), ("pyplug", "thick"), ("allpd", "r")):
+    SV_SET[_m] = SV_SET[_m] + [(_p + ".width", 0.15), (_p + ".npts", 7), (_p + ".width", 0.3),
+                               (_p + ".nsigmas", 2.0)]
 SV_DISP = {
     "sphere": [("radius", "gaussian", 7, 0.1), ("radius", "schulz", 120, 0.2)],
     "cylinder": [("radius", "gaussian", 5, 0.1), ("length", "lognormal", 9, 0.2), ("theta", "gaussian", 4, 8.0)],
@@ -161,6 +169,23 @@ def prepare(tier):
         if not name.endswith(".py"):
             for part in name.replace("+", "@").split("@"):
                 __import__("sasmodels.models." + part)
+    if tier == "thorough":
+        # every builtin model joins the pool with generic parameter sets
+        for name in core.list_models():
+            if name in MODELS:
+                continue
+            info = core.load_model_info(name)
+            MODELS[name] = name
+            PARS[name] = {"def": {}, "sb": {"scale": 0.5, "background": 0.2}}
+            pd = sorted(info.parameters.pd_1d)
+            if pd:
+                # (some builtin models cost seconds per mesh point: keep the generic meshes tiny)
+                PARS[name]["pd"] = {pd[0] + "_pd": 0.1, pd[0] + "_pd_n": 3}
+            GENERIC.add(name)
+            if callable(info.Iq):
+                PY_MODELS.add(name)
+            elif info.have_Fq:
+                FQ_MODELS.add(name)
     root = scratch_root()
     G["root"] = root
     G["memo"] = os.path.join(root, "ccmemo")
@@ -652,7 +677,8 @@ def gen_history(w, n_ops):
 
     def add_kernel(m=None):
         m = m or (w.choice(models) if models and w.random() < 0.7 else add_model())
-        two_d = w.random() < 0.3 and m["model"] not in ("hardsphere", "broad_peak", "allpd")
+        two_d = w.random() < 0.3 and m["model"] not in ("hardsphere", "broad_peak", "allpd") \
+            and m["model"] not in GENERIC
         op = {"op": "make_kernel", "id": new_id("k"), "m": m["id"], "q": w.choice(Q2D if two_d else Q1D),
               "model": m["model"]}
         ops.append(op)
@@ -710,7 +736,7 @@ def gen_history(w, n_ops):
         elif r < 0.74:
             m = w.choice(models) if models and w.random() < 0.6 else add_model()
             if m["model"] == "allpd" or True:
-                kind = w.choice(DATA_KINDS)
+                kind = w.choice(DATA_KINDS) if m["model"] not in GENERIC else "perfect"
                 if m["model"] in ("hardsphere", "broad_peak", "allpd", "pyplug", "_spherepy") and kind == "2d":
                     kind = "pinhole"
                 op = {"op": "direct", "id": new_id("d"), "m": m["id"], "data": kind, "model": m["model"],
